@@ -393,4 +393,14 @@ func init() {
 			fmt.Printf("%s\t%s\t%v\t%s\n", o.Pos, o.Instance, o.OK, short(o.Msg, 160))
 		}
 	}
+	exploreExtra["round5g"] = func(p *Prog) {
+		c := NewCtx(p, "X", "quick")
+		c.quiet = true
+		ruleTrimCutset(c, "TRIM-CUTSET", p.ModulePkgs())
+		ruleFirstDecides(c, "FIRST-DECIDES", p.ModulePkgs())
+		ruleFormatData(c, "FORMAT-DATA", p.ModulePkgs())
+		for _, o := range c.Obls {
+			fmt.Printf("%s\t%s\t%s\t%v\t%s\n", o.Pos, o.Rule, o.Instance, o.OK, short(o.Msg, 160))
+		}
+	}
 }
